@@ -261,7 +261,7 @@ def mon_c11(v):
         if len(ds) > 1: out.append(V("C11", f"operation {op} completed {len(ds)} times", ds[1][0]))
         if op not in issued: out.append(V("C11", f"completion for unknown operation {op}", ds[0][0]))
     # after the closing cancel+close every operation has completed exactly once
-    closed = any(line == "close" for line, _, _, _ in v.tr)
+    closed = any(line == "close" or line.endswith(" +cc") for line, _, _, _ in v.tr)
     if closed and not v.crash:
         for op, (kind, i) in issued.items():
             if op not in done: out.append(V("C11", f"{kind} {op} never completed although the stream was cancelled and closed", i))
@@ -347,4 +347,19 @@ def mon_c19(v):
     return out
 
 
-MONITORS = {"C10": mon_c10, "C11": mon_c11, "C12": mon_c12, "C02": mon_c02, "C19": mon_c19, "C15": mon_c15}
+# ------------------------------------------------------------------ C05 (stream level): a cancelled and closed client stays closed
+def mon_c05(v):
+    """after cancel() + close() the stream must not come back to life by itself: a connection attempt that was still in flight when the
+    client was cancelled must be abandoned even if it succeeds, every stream operation completes, the lock is released"""
+    out = []
+    closed_at = None
+    for i, (line, evs, st, t) in enumerate(v.tr):
+        if line == "close" or line.endswith(" +cc"): closed_at = i
+        elif line == "open": closed_at = None
+        elif closed_at is not None and st.get("open") == "1":
+            out.append(V("C05", f"the stream is open again at line {i} although the client was cancelled and closed at line {closed_at} and open() was not called (a late connection attempt installed its socket)", i))
+            break
+    return out + [dict(x, prop="C05") for x in mon_c11(v) if "never completed" in x["what"] or "still held" in x["what"]]
+
+
+MONITORS = {"C05": mon_c05, "C10": mon_c10, "C11": mon_c11, "C12": mon_c12, "C02": mon_c02, "C19": mon_c19, "C15": mon_c15}
